@@ -21,6 +21,8 @@ pub struct World<K: KeyT, V: ValT> {
     /// log full contents in snapshots when the total number of elements is at most this
     pub content_limit: usize,
     pub gw: usize,
+    /// replaying a prefix: execute but do not snapshot / build events
+    pub silent: bool,
 }
 
 #[derive(Default, Clone, Copy)]
@@ -183,6 +185,7 @@ impl<K: KeyT, V: ValT> World<K, V> {
             slots,
             content_limit,
             gw: if cfg!(miri) { 8 } else { 16 },
+            silent: false,
         }
     }
 
@@ -316,7 +319,16 @@ impl<K: KeyT, V: ValT> World<K, V> {
     }
 
     pub fn finish(&self, op: &Value, m: &Meta, res: Value, extra: Vec<(&str, Value)>) -> Value {
+        if self.silent {
+            return Value::Null;
+        }
         let mut e = op.as_object().cloned().unwrap_or_default();
+        if let Some(f) = op.get("fault") {
+            let mut f = f.clone();
+            f["fired"] = json!(FUSE_FIRED.load(Relaxed));
+            f["victim"] = json!(FUSE_VICTIM.load(Relaxed));
+            e.insert("fault".into(), f);
+        }
         let res = match &m.panic {
             None => res,
             Some(msg) => json!({"t":"panic","class":panic_class(msg),"msg":msg}),
